@@ -218,7 +218,74 @@ def mirrored_dataset(ds):
     return new
 
 
-def metamorphic_dataset(seed, n_chroms=2, genes_per_chrom=3, reads_per_tx=5, chrom_len=46000, novel=True):
+def _put(ds, chrom, pos, text):
+    """write `text` so that its first base is at 1-based position pos"""
+    seq = ds.chroms[chrom]
+    ds.chroms[chrom] = seq[:pos - 1] + text + seq[pos - 1 + len(text):]
+
+
+MINOR_SITES = {"+": {"at_ac": ("AT", "AC"), "gc_ag": ("GC", "AG"), "gt_ag": ("GT", "AG")},
+               "-": {"at_ac": ("GT", "AT"), "gc_ag": ("CT", "GC"), "gt_ag": ("CT", "AC")}}
+
+
+def add_special_loci(ds, rng, chrom="chrS", length=40000, clusters=True):
+    """an un-annotated chromosome with loci whose strand / ends can only come from the sequence and the read ends:
+      * three-exon genes whose introns are all of one splice-site type (AT-AC, GC-AG, GT-AG) on either strand, reads
+        without tails: the strand of the reads and of the discovered model comes from the canonical-site tables only;
+      * three-exon genes with TWO polyA (polyT) site clusters 90 bp apart on the terminal intron and a tailed read ending
+        between them (within the polyA tolerance of both): the site it is threaded to must not depend on k."""
+    ds.chroms[chrom] = "".join(rng.choice("ACGT") for _ in range(length))
+    pos = 1500
+    n = 0
+    for strand in "+-":
+        for kind in ("at_ac", "gc_ag", "gt_ag"):
+            ex = [(pos, pos + 299), (pos + 1000, pos + 1199), (pos + 2000, pos + 2399)]
+            l, r = MINOR_SITES[strand][kind]
+            for a, b in ((ex[0][1] + 1, ex[1][0] - 1), (ex[1][1] + 1, ex[2][0] - 1)):
+                _put(ds, chrom, a, l)
+                _put(ds, chrom, b - 1, r)
+            for e in (ex[0][0], ex[-1][1]):
+                _put(ds, chrom, e - 2, "GCGCG")
+            for i in range(7):
+                ds.read_from_exons("u_%s_%s_%d" % (kind, "f" if strand == "+" else "r", i), chrom, ex,
+                                   flag=0 if strand == "+" else 16)
+            pos += 3400
+            n += 1
+    for strand in ("+-" if clusters else ""):
+        x = 400
+        base = [(pos, pos + 299 + (0 if strand == "+" else 0)), (pos + 1000, pos + 1199), (pos + 2000, pos + 2000 + x)]
+        introns = ((base[0][1] + 1, base[1][0] - 1), (base[1][1] + 1, base[2][0] - 1))
+        for a, b in introns:
+            l, r = MINOR_SITES[strand]["gt_ag"]
+            _put(ds, chrom, a, l)
+            _put(ds, chrom, b - 1, r)
+        if strand == "+":
+            variants = [(0, 6, "proximal"), (90, 2, "distal"), (45, 1, "between")]
+            for d, cnt, nm in variants:
+                ex = [base[0], base[1], (base[2][0], base[2][1] + d)]
+                _put(ds, chrom, ex[-1][1] - 2, "GCGCG")
+                _put(ds, chrom, ex[0][0] - 2, "GCGCG")
+                for i in range(cnt):
+                    ds.read_from_exons("pa_%s_%d" % (nm, i), chrom, ex, polya=30)
+        else:
+            # mirror arrangement: the variable end is the left one (polyT heads)
+            ex0 = [(pos + 100, pos + 399), (pos + 1000, pos + 1199), (pos + 2000, pos + 2399)]
+            intr = ((ex0[0][1] + 1, ex0[1][0] - 1), (ex0[1][1] + 1, ex0[2][0] - 1))
+            for a, b in intr:
+                l, r = MINOR_SITES["-"]["gt_ag"]
+                _put(ds, chrom, a, l)
+                _put(ds, chrom, b - 1, r)
+            for d, cnt, nm in [(0, 6, "proximal"), (90, 2, "distal"), (45, 1, "between")]:
+                ex = [(ex0[0][0] - d, ex0[0][1]), ex0[1], ex0[2]]
+                _put(ds, chrom, ex[0][0] - 2, "GCGCG")
+                _put(ds, chrom, ex[-1][1] - 2, "GCGCG")
+                for i in range(cnt):
+                    ds.read_from_exons("pt_%s_%d" % (nm, i), chrom, ex, flag=16, polyt=30)
+        pos += 3600
+    return ds
+
+
+def metamorphic_dataset(seed, n_chroms=2, genes_per_chrom=3, reads_per_tx=5, chrom_len=46000, novel=True, special=True):
     """noise-free reads of annotated isoforms (truncated ends, polyA/T tails) plus, with `novel`, reads of an
     unannotated exon-skipping isoform of some genes (enough copies to be reported as a novel model)"""
     ds = synth.simple_dataset(seed=seed, n_chroms=n_chroms, genes_per_chrom=genes_per_chrom, reads_per_tx=reads_per_tx,
@@ -286,4 +353,6 @@ def metamorphic_dataset(seed, n_chroms=2, genes_per_chrom=3, reads_per_tx=5, chr
                 e = list(ex[:j + 1])
                 e[-1] = (e[-1][0], e[-1][1] - d1)
                 ds.read_from_exons("e_%s_%d" % (tid, k), g["chr"], e)
+    if special:
+        add_special_loci(ds, ds.rng, clusters=(special != "no_clusters"))
     return ds
